@@ -140,6 +140,7 @@ def _solve_cutting_stock(roll_width, piece_sizes, demands, max_iter, eps, on_pro
 
     iteration = 0
     lp_obj = float("inf")
+    converged = False  # pricing proved that no improving pattern exists
 
     while iteration < max_iter:
         x_vals, duals, lp_obj = _solve_master_lp(patterns, demands, eps)
@@ -151,6 +152,7 @@ def _solve_cutting_stock(roll_width, piece_sizes, demands, max_iter, eps, on_pro
 
         # Reduced cost = 1 - pricing_value; stop if >= 0
         if pricing_value <= 1.0 + eps:
+            converged = True
             break
 
         if new_pattern not in patterns:
@@ -184,8 +186,9 @@ def _solve_cutting_stock(roll_width, piece_sizes, demands, max_iter, eps, on_pro
                 error=f"Demand not met for piece {i}: {produced} < {demands[i]}",
             )
 
+    # The restricted master's value is a lower bound only once pricing has converged
     lb = ceil(lp_obj - eps)
-    status = Status.OPTIMAL if total_rolls <= lb else Status.FEASIBLE
+    status = Status.OPTIMAL if converged and total_rolls <= lb else Status.FEASIBLE
 
     return Result(solution, float(total_rolls), iteration, iteration, status)
 
@@ -203,6 +206,7 @@ def _solve_custom(demands, pricing_fn, initial_columns, max_iter, eps, on_progre
 
     iteration = 0
     lp_obj = float("inf")
+    converged = False  # pricing proved that no improving column exists
 
     while iteration < max_iter:
         x_vals, duals, lp_obj = _solve_master_lp(columns, demands, eps)
@@ -213,6 +217,7 @@ def _solve_custom(demands, pricing_fn, initial_columns, max_iter, eps, on_progre
         new_col, reduced_cost = pricing_fn(duals)
 
         if new_col is None or reduced_cost >= -eps:
+            converged = True
             break
 
         new_col_tuple = tuple(new_col)
@@ -236,7 +241,7 @@ def _solve_custom(demands, pricing_fn, initial_columns, max_iter, eps, on_progre
                 total += count
 
     lb = ceil(lp_obj - eps)
-    status = Status.OPTIMAL if total <= lb else Status.FEASIBLE
+    status = Status.OPTIMAL if converged and total <= lb else Status.FEASIBLE
 
     return Result(solution, float(total), iteration, iteration, status)
 
